@@ -5,6 +5,7 @@ package c07sc
 
 import (
 	"bytes"
+	"strings"
 
 	"github.com/yuin/goldmark"
 	"github.com/yuin/goldmark/ast"
@@ -197,6 +198,35 @@ func converts(warmup bool, docs ...string) func(cfg core.Cfg) *Instance {
 	}
 }
 
+// HistoryDocs are converted one after the other, before the goroutines start, by scenario S8: documents that leave
+// unusual parser state behind when they end (open containers and fences ended by other openers, empty and marker-only
+// list items, unclosed delimiters and brackets, definitions without uses, footnotes without references, tables cut short,
+// headings with colliding ids). A correct instance carries nothing over; a pooled or cached object handed back in a bad
+// state by one of them is then shared by the concurrent conversions.
+var HistoryDocs = []string{
+	"> ```\n```\ncode\n```\n", "- ```\n```\ncode\n", "> ~~~\n> a\n~~~\nb\n", "```\n", "> ```", "- a\n\n      ```\n",
+	"-\n\n  foo\n", "- a\n-\n", "1.\n2.\n   a\n", "-\n  -\n    a\n", "*\n*\n*\n", ">\n> a\n>\n", "- > - a\n",
+	"*a **b `c\n", "[a [b ![c\n", "[x]: /y\n", "[x]: /y 'unclosed\n", "[^f]: unused\n", "a[^g]\n", "\"q 'r -- ...\n",
+	"|a|b|\n|-|\n", "|a|\n|:-:|\n|b|c|d|\n", "# a\n\n# a\n\n# a-1\n", "# h {#i .c\n", "<div>\n*a*\n", "<!--\n", "<pre>\n</PRE>\n",
+	"&#0; &#x110000; &bogus; &amp\n", "a\\\n\\\nb  \n", "\t\tx\n- \ty\n", "www.a.bc(d http://e.f/(g a@b.cd.\n", "- [ ] \n- [x]\n",
+	"T\n: d\n\n: e\nU\n", "~~a~b~~~\n", "![a  \nb](c \"d\\\"\")\n", strings.Repeat("[", 40) + "a" + strings.Repeat("]", 40) + "\n", strings.Repeat("> ", 30) + "a\n",
+}
+
+func convertsAfterHistory(docs ...string) func(cfg core.Cfg) *Instance {
+	return func(cfg core.Cfg) *Instance {
+		md := cfg.New()
+		for _, h := range HistoryDocs {
+			var b bytes.Buffer
+			_ = md.Convert([]byte(h), &b)
+		}
+		in := &Instance{}
+		for _, d := range docs {
+			in.Bodies = append(in.Bodies, convertBody(md, d))
+		}
+		return in
+	}
+}
+
 // Scenarios lists all drivers.
 var Scenarios = []Scenario{
 	{"S0-convert2-micro-first", "two goroutines Convert two one-line documents on a new shared Markdown: the executions are almost entirely lazy initialisation, which is where a second preemption matters", 2, converts(false, "a *b*\n", "# c\n")},
@@ -233,6 +263,7 @@ var Scenarios = []Scenario{
 			}}
 		}},
 	{"S6-entity-first", "two goroutines whose documents reach the lazily built HTML5 entity table for the first time, one from text and one from a link destination and title", 2, converts(false, ent1, ent2)},
+	{"S8-convert2-sink-after-history", "as S2 after the instance has converted, one after the other, a list of documents that end in unusual parser states (HistoryDocs)", 2, convertsAfterHistory(SinkA, SinkB)},
 	{"S7-default-instance", "two goroutines call the package-level goldmark.Convert (shared default instance)", 2,
 		func(cfg core.Cfg) *Instance {
 			mk := func(doc string) func() Result {
